@@ -424,20 +424,48 @@ class BuiltinMixin:
             return [(st, VInt(n))]
         raise Unsupported(f"len() of {type(v).__name__}")
 
+    def with_typed(self, st, vals, fn):
+        """split every VU among `vals` into typed alternatives, then call fn(st, typed_vals)"""
+        results = [(st, [])]
+        for v in vals:
+            nxt = []
+            for s, acc in results:
+                for s2, tv in self.split_tags(s, v):
+                    nxt.append((s2, acc + [tv]))
+            results = nxt
+        out = []
+        for s, typed in results:
+            out.extend(fn(s, typed))
+        return out
+
     def _minmax(self, st, args, kwargs, is_min):
         if len(args) == 1:
             items = self.concrete_items(st, args[0])
             if items is None:
                 raise Unsupported("min/max over symbolic iterable")
             args = items
-        terms = [self.num_term(a) for a in args]
-        if any(t is None for t in terms):
-            raise Unsupported("min/max of non-int values")
-        acc = terms[0]
-        for t in terms[1:]:
-            # Python returns the first of equal elements: min -> If(t < acc, t, acc)
-            acc = z3.If(t < acc, t, acc) if is_min else z3.If(t > acc, t, acc)
-        return [(st, VInt(acc))]
+
+        def f(s, typed):
+            terms = [self.num_term(a) for a in typed]
+            if any(t is None for t in terms):
+                if all(isinstance(a, (VInt, VBool, VStr, VNone, VFlt, VU, VOpaque)) for a in typed):
+                    if all(isinstance(a, (VInt, VBool, VFlt)) for a in typed):
+                        # mixed int/float comparison: abstract
+                        fs = [self.flt_term(a) for a in typed]
+                        g = z3.Function("flt_min" if is_min else "flt_max", Flt, Flt, Flt)
+                        acc = fs[0]
+                        for t in fs[1:]:
+                            acc = g(acc, t)
+                        return [(s, VFlt(acc))]
+                    return [self.raised(s, "TypeError", "'<' not supported between instances")]
+                raise Unsupported("min/max of non-int values")
+            acc = terms[0]
+            for t in terms[1:]:
+                # Python returns the first of equal elements
+                acc = z3.If(t < acc, t, acc) if is_min else z3.If(t > acc, t, acc)
+            return [(s, VInt(acc))]
+
+        return self.with_typed(st, list(args), f)
 
     def b_min(self, st, args, kwargs):
         return self._minmax(st, args, kwargs, True)
